@@ -543,6 +543,7 @@ func ParseURI(uri SIPStr, puri *PsipURI) (ErrorURI, int) {
 					puri.Host.Reset()
 					puri.Port.Reset()
 					puri.PortNo = 0
+					portNo = 0
 					puri.Params.Reset()
 					puri.Headers.Reset()
 				} else {
@@ -604,6 +605,7 @@ func ParseURI(uri SIPStr, puri *PsipURI) (ErrorURI, int) {
 					puri.Host.Reset()
 					puri.Port.Reset()
 					puri.PortNo = 0
+					portNo = 0
 					puri.Params.Reset()
 					puri.Headers.Reset()
 				} else {
